@@ -394,7 +394,7 @@ def build_world(tmp, tree, nested, hist, F, viol, ctx, k=0, nested_fmts=None):
 
 
 # ------------------------------------------------------------------------------------------------ mutations
-ADD_NAMES = ["zz_new.bin", "n w.txt", "néw.bin", "néw.bin", "new&<'>.x", "new l.bin"]
+ADD_NAMES = ["zz_new.bin", "n w.txt", "n\u00e9w.bin", "ne\u0301w.bin", "new&<'>.x", "new\u2028l.bin"]
 
 
 def mutations(g):
@@ -518,7 +518,7 @@ def mid(ms):
 
 
 # ------------------------------------------------------------------------------------------------ one case
-def run_case(g, F, ms, viol, ctx, how="abs", check_extra=(), stage2=True, nested_check=True, create_fmts=None):
+def run_case(g, F, ms, viol, ctx, how="abs", check_extra=(), stage2=True, nested_check=True, create_fmts=None, check_ii=None):
     """apply the mutations, then verify, diff (also on one nested root), create, and verify / diff once more"""
     for m in ms:
         apply(g, m)
@@ -531,7 +531,9 @@ def run_case(g, F, ms, viol, ctx, how="abs", check_extra=(), stage2=True, nested
         iargs += ["-i", p]
     arg, cwd = spell(g.root, how)
     for cmd in ("verify", "diff"):
-        judge(viol, cmd, W.run(cmd, [arg] + iargs, cwd=cwd), A, R, N, uni, mutated, dict(ctx, spelling=how), maybe=g.maybe)
+        # check-time patterns: as -i options, or (verify) through a pattern file
+        ia = ["-ii", check_ii] if (check_ii and cmd == "verify") else iargs
+        judge(viol, cmd, W.run(cmd, [arg] + ia, cwd=cwd), A, R, N, uni, mutated, dict(ctx, spelling=how), maybe=g.maybe)
     roots = W.nested_roots(g.root)
     if nested_check and roots and g.patterns == W.DEFAULT_IGNORE and not check_extra:
         nr = roots[(len(ms) + len(A) + len(N)) % len(roots)]
@@ -644,7 +646,7 @@ IGN_WORLDS = {
     "iifile": ([], [([], ["*.o", "tmp/deep/", "Clips"])], []),
     "iirel": ([], [(["*.log"], ["*.o", "/Clips_proxy"])], []),
     "negate-later": ([], [(["*.txt"], None), (["!keep.txt"], None)], []),
-    "later-ignored": ([], [([], None), (["*.tmp", "log"], None), ([], None)], []),
+    "later-ignored": ([], [([], None), (["*.tmp", "log", "src/tmp", "/build"], None), ([], None)], []),
     "dup": ([], [(["*.tmp", "*.tmp"], None), (["*.tmp"], ["*.tmp"])], []),
     "checktime": ([], [([], None)], ["*.tmp", "Clips"]),
     "nested": (["src", "tmp/deep"], [(["*.tmp"], None)], []),
@@ -717,7 +719,11 @@ def job_ignore(p):
             dst = os.path.join(tmp, f"c{n}", "t")
             shutil.copytree(g0.root, dst, symlinks=True)
             g = g0.moved(dst)
-        sets, code = run_case(g, F, ms, viol, ctx, how=SPELLS[n % 4], check_extra=check_extra, nested_check=False)
+        cii = None
+        if check_extra and n % 2:
+            cii = os.path.join(tmp, f"check{n}.txt")
+            wr(cii, "\n".join(check_extra) + "\n")
+        sets, code = run_case(g, F, ms, viol, ctx, how=SPELLS[n % 4], check_extra=check_extra, nested_check=False, check_ii=cii)
         out.append(result(cid, ("ignore", name, mname), {"case": cid, "mutation": [f"{m[0]} {m[2]}" for m in ms], "A,R,N": [len(x) for x in sets], "create": code}, viol))
         if g is not g0:
             shutil.rmtree(os.path.dirname(g.root), ignore_errors=True)
@@ -1037,7 +1043,9 @@ def plan(run):
         if name != "reinclude-below-ignored":
             add("ignore", f"ignore/{name}", name=name, wid=f"ignore/{name}")
     zs = [(ZONES[i], ZONES[j]) for i in range(len(ZONES)) for j in range(len(ZONES)) if i != j]
-    if tier != "thorough":
+    if only is not None and only.startswith("tz/"):
+        zs = [z for z in zs if f"tz/{ZONES.index(z[0])}-{ZONES.index(z[1])}" == only]
+    elif tier != "thorough":
         zs = [zs[(i * 5 + run.seed) % len(zs)] for i in range(6)]
     for n, (z1, z2) in enumerate(dict.fromkeys(zs)):
         add("tz", f"tz/{ZONES.index(z1)}-{ZONES.index(z2)}".rsplit("/", 1)[0], z1=z1, z2=z2, k=n, wid="tz")
